@@ -3,9 +3,14 @@
   `detectEnv` / `detectLoop`) is written in (C18, owner O7).  Hand-written, core Lean only.
 
   Modelled, not verified: `str.split(",")`, `item.split("=", maxsplit=1)` followed by the two-name unpacking
-  (`none` = the ValueError the source catches), `str.strip()` (ASCII white space, `Py.strip`), `urllib.parse.unquote`
-  for `%XX` escapes below 0x80 (other escapes are outside the model: the generators mark such cases and they are
-  judged by the oracle only), truthiness of `os.environ.get(..)` (unset and "" are falsy).
+  (`none` = the ValueError the source catches), `str.strip()` on ASCII text (`asciiStrip`: the ten ASCII characters
+  Python's `str.strip` removes — \t \n \v \f \r \x1c \x1d \x1e \x1f and space; `Py.strip` of the shared Py.lean lacks
+  \x1c–\x1f and is not used here), `urllib.parse.unquote` for `%XX` escapes below 0x80, truthiness of
+  `os.environ.get(..)` (unset and "" are falsy).
+  DOMAIN on which these definitions are the Python operations: `AsciiPlain` texts — every character below 0x80 and no
+  `%XX` escape with XX ≥ 0x80 (Python also strips non-ASCII white space such as U+00A0 / U+2003 and decodes %80+ escapes
+  as UTF-8 with U+FFFD replacement).  The theorems carry this domain as a hypothesis; outside it the generators label
+  the case `unmodelled` and only the oracle judges it.
 -/
 import DeepModel.Model.AttrBase
 
@@ -55,7 +60,37 @@ def unquoteAux : Nat → List Char → List Char
 /-- `urllib.parse.unquote` for escapes below 0x80; anything else is kept as written. -/
 def unquote (l : List Char) : List Char := unquoteAux 0 l
 
-def stripS (s : List Char) : String := Py.strip (String.ofList s)
+/-- the ASCII characters `str.strip()` removes (`str.isspace` below 0x80) -/
+def isAsciiSpace (c : Char) : Bool :=
+  c = ' ' || c = '\t' || c = '\n' || c = '\r' || c = '\x0b' || c = '\x0c' ||
+  c = '\x1c' || c = '\x1d' || c = '\x1e' || c = '\x1f'
+
+/-- `s.strip()` for ASCII text -/
+def asciiStrip (s : String) : String :=
+  String.ofList ((s.toList.dropWhile isAsciiSpace).reverse.dropWhile isAsciiSpace).reverse
+
+def stripS (s : List Char) : String := asciiStrip (String.ofList s)
+
+/-- is there a `%XX` escape with XX ≥ 0x80 right after this "%"? -/
+def highAt : List Char → Bool
+  | a :: b :: _ =>
+    match hexVal a, hexVal b with
+    | some x, some y => decide (128 ≤ x * 16 + y)
+    | _, _ => false
+  | _ => false
+
+def noHighEscape : List Char → Bool
+  | [] => true
+  | c :: tl => !(c == '%' && highAt tl) && noHighEscape tl
+
+/-- the texts on which `asciiStrip` / `unquote` ARE `str.strip` / `urllib.parse.unquote`: only characters below 0x80
+    and no escape of a byte ≥ 0x80 -/
+def asciiPlainC (l : List Char) : Bool := l.all (fun c => decide (c.toNat < 128)) && noHighEscape l
+
+/-- **the modelled domain** of the environment parser (decidable) -/
+def AsciiPlain (s : String) : Prop := asciiPlainC s.toList = true
+
+instance (s : String) : Decidable (AsciiPlain s) := by unfold AsciiPlain; infer_instance
 
 /-! ### text-level operations the translated detector calls -/
 
